@@ -1,4 +1,7 @@
-//! mon_frag — monitors; dispatches on --prop.
+//! mon_frag — fragment cache monitors; dispatches on --prop.
+
+mod c06;
+mod fsgen;
 
 use vcommon::Args;
 
@@ -6,6 +9,7 @@ fn main() {
     vcommon::pool::install_panic_hook();
     let args = Args::parse();
     match args.prop.as_str() {
+        "C06" => c06::main(args),
         p => {
             eprintln!("mon_frag: unknown property {p}");
             std::process::exit(2);
